@@ -142,6 +142,7 @@ class Run:
         self.exhaustive = True
         self.extra: dict = {}
         self.parts: dict = {}
+        self.payloads: dict = {}
         self._pool = None
         _FUNCS.clear()
         _FUNCS.update(funcs)
@@ -189,6 +190,8 @@ class Run:
             r = res.get("reason", "?")
             self.ood_reasons[r] = self.ood_reasons.get(r, 0) + 1
             return
+        if "payload" in res:
+            self.payloads.setdefault(part, []).append((case, res["payload"]))
         if res.get("key") is not None:
             self.keys.add(part + ":" + (res["key"] if isinstance(res["key"], str) else digest(res["key"])))
         if res.get("outcome") is not None:
